@@ -814,6 +814,10 @@ func partC(e *env, versions []string) {
 		if !ok {
 			return
 		}
+		// the same sources without the directive line: no rule may report more, and (comment ignores off) none less
+		if base, ok := e.baseScene(comments, versions, nil); ok {
+			e.crossImage(sc, base, versions)
+		}
 		for _, v := range versions {
 			t := e.tables(v, "lint")
 			uses := [][]string{lintPlanted, {"COMMENTS", "BASIC"}}
